@@ -62,12 +62,24 @@ var c19ExtTable = []c19Ext{
 	{"/graph/actions/find-path", "max_depth(no path)", `{"index_name":"fx","source_id":"v3","target_id":"v0","relations":["rel"],"max_depth":@}`, "int", ""},
 	{"/graph/actions/find-path", "at_time", `{"index_name":"fx","source_id":"v0","target_id":"v2","relations":["rel"],"at_time":@}`, "int", ""},
 	{"/ui/explore", "limit", `{"index_name":"fx","limit":@}`, "int", ""},
+	// vector-valued fields x the vector pool (wrong dimension, empty, zero, overflow, nested, strings, nulls)
+	{"/vector/actions/add", "vector", `{"index_name":"fx","id":"q1","vector":@}`, "vec", ""},
+	{"/vector/actions/add", "vector(empty index)", `{"index_name":"fe","id":"q1","vector":@}`, "vec", ""},
+	{"/vector/actions/add-batch", "vectors[1].vector", `{"index_name":"fx","vectors":[{"id":"q1","vector":[1,2,3]},{"id":"q2","vector":@}]}`, "vec", ""},
+	{"/vector/actions/import", "vectors[1].vector", `{"index_name":"fx","vectors":[{"id":"q1","vector":[1,2,3]},{"id":"q2","vector":@}]}`, "vec", ""},
+	{"/vector/actions/search", "query_vector", `{"index_name":"fx","k":3,"query_vector":@}`, "vec", ""},
+	{"/vector/actions/search", "query_vector(hydrate)", `{"index_name":"fx","k":3,"query_vector":@,"hydrate":true}`, "vec", ""},
+	{"/vector/actions/search-with-scores", "query_vector", `{"index_name":"fx","k":3,"query_vector":@}`, "vec", ""},
+	{"/vector/actions/belief-assessment", "query_vec", `{"index_name":"fx","query_vec":@}`, "vec", ""},
+	{"/vector/actions/evolve", "new_vector", `{"index_name":"fx","old_id":"v0","new_vector":@,"reason":"r"}`, "vec", ""},
+	{"/graph/actions/extract-subgraph", "guide_vector", `{"index_name":"fx","root_id":"v0","relations":["rel"],"guide_vector":@,"semantic_threshold":0.5}`, "vec", ""},
 }
 
 var c19ExtValues = map[string][]string{
 	"int":   {`-1`, `0`, `1`, `2`, `1000000`, `4611686018427387904`, `9223372036854775807`, `-9223372036854775808`},
 	"float": {`-1`, `0`, `1e308`, `-1e308`, `1e-320`, `2`},
 	"dur":   {`"-1s"`, `"0s"`, `"1ns"`, `"876000h"`, `-1`, `0`},
+	"vec":   c19Vecs,
 }
 
 func c19ExtCase(e c19Ext, val string) c19Case {
